@@ -304,3 +304,42 @@ func nextPerm(a []int) bool {
 	}
 	return true
 }
+
+func init() {
+	replayers["C19"] = func(f *evid.Failure) int {
+		txt, _ := f.Extra["decls"].(string)
+		var seq []declKind
+		for _, w := range strings.Fields(txt) {
+			if len(w) != 3 {
+				continue
+			}
+			seq = append(seq, declKind{id: w[0:1], content: w[1:2], prio: w[2] == 'T'})
+		}
+		out := c19Call(append([]declKind{}, seq...))
+		if cl, det := c19Clauses12(seq, out); cl != "" {
+			fmt.Printf("REPRODUCED C19/%s: input [%s]: %s\n", cl, txt, det)
+			return 1
+		}
+		if contentIsFunctionOfID(seq) {
+			canon := canonicalArrangement(seq)
+			if co := c19Call(append([]declKind{}, canon...)); co != out {
+				fmt.Printf("REPRODUCED C19/permutation-invariance: [%s] gives %q, sorted arrangement gives %q\n", txt, out, co)
+				return 1
+			}
+		}
+		fmt.Println("not reproduced")
+		return 0
+	}
+	// checks that build their own binary: replay = the deterministic quick check, filtered on the stored signature
+	for _, id := range []string{"C07", "C14", "C20"} {
+		id := id
+		replayers[id] = func(f *evid.Failure) int {
+			fmt.Printf("replaying %s by re-running the (deterministic) quick exploration; looking for clause %s / %s\n", id, f.Clause, f.Sig)
+			code := customRunners[id]("quick")
+			if code == 1 {
+				fmt.Println("REPRODUCED (see the VIOLATION lines above)")
+			}
+			return code
+		}
+	}
+}
